@@ -10,6 +10,8 @@ import (
 	"github.com/tableauio/tableau/internal/confgen"
 	"github.com/tableauio/tableau/internal/confgen/fieldprop"
 	"github.com/tableauio/tableau/internal/excel"
+	"github.com/tableauio/tableau/internal/importer"
+	"github.com/tableauio/tableau/internal/importer/book"
 	"github.com/tableauio/tableau/internal/protogen"
 	"github.com/tableauio/tableau/internal/protogen/parseroptions"
 	"github.com/tableauio/tableau/internal/strcase"
@@ -150,3 +152,9 @@ func ParseHeader(protoPackage string, infos []ProtogenTypeInfo, nameRow, typeRow
 func ExportMessager(protoPackage string, infos []ProtogenTypeInfo, ws *internalpb.Worksheet) (string, []string, error) {
 	return protogen.VerifExportMessager(protoPackage, infos, ws)
 }
+
+// BookNode is the document node tree of the importers.
+type BookNode = book.Node
+
+// XMLDataToNode converts one XML data document to the node tree confgen parses.
+func XMLDataToNode(rawDoc string) (*BookNode, error) { return importer.VerifXMLDataToNode(rawDoc) }
